@@ -140,12 +140,36 @@ def run(ctx: Ctx, tier: str) -> Result:
     # ---------------- SEQ
     pl = p.func(VP + ".process_list_breadth_first")
     loops = list(t.nodes_in(pl, ast.For))
-    need(len(loops) == 1, "process_list_breadth_first: expected one loop")
-    lp = loops[0]
-    appends = [c for c in ast.walk(lp) if isinstance(c, ast.Call) and isinstance(c.func, ast.Attribute) and c.func.attr == "append"]
-    need(appends, "process_list_breadth_first: no append")
+    comps_ = [c for c in t.nodes_in(pl, ast.ListComp) if len(c.generators) == 1 and enumerate_index(c.generators[0]) is not None]
+    if not loops and len(comps_) == 1:
+        # [Node(..) for index, element in enumerate(<copy>) if index < limit]: the index of enumerate() counts the elements
+        g0 = comps_[0].generators[0]
+        idx = enumerate_index(g0)
+        bounded = False
+        for tst in g0.ifs:
+            if isinstance(tst, ast.Compare) and len(tst.ops) == 1:
+                l, op, r_ = tst.left, tst.ops[0], tst.comparators[0]
+                lt, rt = ctx.expand.expand(l, pl), ctx.expand.expand(r_, pl)
+                lim_r = any(x.startswith(P(pl, 0)) and x.endswith("max_collection_size") for x in rt)
+                lim_l = any(x.startswith(P(pl, 0)) and x.endswith("max_collection_size") for x in lt)
+                if (lim_r and norm(l) == idx and isinstance(op, ast.Lt)) or (lim_l and norm(r_) == idx and isinstance(op, ast.Gt)):
+                    bounded = True
+        rets_ = [r for r in t.nodes_in(pl, ast.Return)]
+        returned = len(rets_) == 1 and (rets_[0].value is comps_[0] or (isinstance(rets_[0].value, ast.Name) and any(
+            k == "assign" and b_[1] is comps_[0] for k, b_ in t.local_bindings(pl, rets_[0].value.id))))
+        if bounded and returned:
+            res.ok("C05.SEQ", {"element kept only while": "%s < max_collection_size (index of enumerate)" % idx})
+        else:
+            res.fail(Finding("C05.SEQ", pl.qname, comps_[0], pl.loc(comps_[0]), "the elements of a sequence are collected by a comprehension that does not keep exactly those whose "
+                             "position is below max_collection_size (filters: %s)" % [norm(x) for x in g0.ifs]))
+        loops = None
+    else:
+        need(len(loops) == 1, "process_list_breadth_first: expected one loop")
+    lp = loops[0] if loops else None
+    appends = [c for c in ast.walk(lp) if isinstance(c, ast.Call) and isinstance(c.func, ast.Attribute) and c.func.attr == "append"] if lp is not None else []
+    need(appends or lp is None, "process_list_breadth_first: no append")
     collp = P(pl, 0)
-    sliced = isinstance(lp.iter, ast.Subscript) or (isinstance(lp.iter, ast.Call) and lp.iter.args and isinstance(lp.iter.args[0], ast.Subscript))
+    sliced = lp is not None and (isinstance(lp.iter, ast.Subscript) or (isinstance(lp.iter, ast.Call) and lp.iter.args and isinstance(lp.iter.args[0], ast.Subscript)))
     for a in appends:
         done = False
         conds = paths.conditions(p, a, pl)
